@@ -320,4 +320,31 @@ Proof.
     specialize (Ha a Hain). lia.
 Qed.
 
+(* two pieces of the text that share a position are the same piece *)
+Lemma incr_same : forall ps p q, incr ps -> In p ps -> In q ps -> pstart q <= pstart p <= pend q -> p = q.
+Proof.
+  induction ps as [|a ps IH]; intros p q Hi Hp Hq Hle; [destruct Hp|].
+  pose proof (incr_piece_nonempty _ p Hi Hp) as Np. pose proof (incr_piece_nonempty _ q Hi Hq) as Nq.
+  destruct Hi as [Ha [Hlt Hi]]. destruct Hp as [<-|Hp]; destruct Hq as [<-|Hq].
+  - reflexivity.
+  - specialize (Hlt q Hq). lia.
+  - specialize (Hlt p Hp). lia.
+  - apply (IH p q Hi Hp Hq Hle).
+Qed.
+
+(* C17: a word that no kept match covers reappears as an unmatched token of its own *)
+Theorem tokenize_unmatched_word (p : piece) : In p P -> is_word_piece O p = true ->
+  (forall t, In t (filter_overlapping (t_iter O tr text)) -> ~ covers t p) ->
+  In (unmatched p) (t_tokenize O tr text).
+Proof.
+  intros Hp Hw Hno. destruct (tokenize_covers_once p Hp Hw) as [pre [t [post [E [Hc _]]]]].
+  assert (Ht : In t (t_tokenize O tr text)) by (rewrite E; apply in_or_app; right; left; reflexivity).
+  pose proof Ht as Ht0. unfold t_tokenize in Ht. apply retok_from in Ht as [Hm|[q [Hq Eq]]].
+  - exfalso. apply (Hno t Hm Hc).
+  - assert (p = q).
+    { apply (incr_same P p q pieces_incr Hp Hq). subst t. destruct Hc as [C1 C2]. cbn in C1, C2.
+      pose proof (incr_piece_nonempty P p pieces_incr Hp). lia. }
+    subst q. unfold unmatched. rewrite <- Eq. exact Ht0.
+Qed.
+
 End Tokenize.
